@@ -2,6 +2,7 @@
 from __future__ import annotations
 
 import ast
+import re
 
 from ..core import AnalysisError, RuleResult
 from ..model import ClassInfo
@@ -314,7 +315,19 @@ def rule_r4(ctx):
 
 
 def _star_after_star(p):
-    return any(k.startswith("isinstance:") and k.endswith(":Starred") and v is True for k, v in p.assign.items())
+    """A later iteration of the loop over a pattern (the flag 'a star was seen' is set) meets a
+    starred element: the loop asks first whether its element is starred, so the FIRST Starred decision
+    taken after the loop-carried one is about that element.  (A test such as
+    any(isinstance(e, Starred) for e in elts) before the loop, or the stars of a NESTED pattern met
+    further on, decide other elements.)"""
+    keys = list(p.assign.items())
+    for i, (k, v) in enumerate(keys):
+        if k.startswith("loopcarried:") and v == "later":
+            for k2, v2 in keys[i + 1:]:
+                if re.match(r"isinstance:.*\.elts\[\*\d*\]:Starred$", k2):
+                    return v2 is True
+            return False
+    return False
 
 
 PRODUCT_FIELDS = {"arguments", "alias", "keyword"}
